@@ -322,6 +322,8 @@ def check(rep, F, tier, replay=None):
     from ruleutil import fill_commit_rule
     n_fc = fill_commit_rule(rep, F, ["src/builders/", "src/lib.rs", "src/utils.rs", "src/protocol_types/"])
     rep.floor("collections filled per iteration (FILL-commit)", 4, n_fc)
+    from ruleutil import value_iter_rule
+    value_iter_rule(rep, F)
     return rep.finish(
         EXPLANATION,
         ["Value's PartialEq compares lovelace and every asset (treating absent and empty bundles alike) — its algebra is C14's concern",
